@@ -671,6 +671,10 @@ pub fn run_history(history: &History, cfg: &RunCfg, shim: &Shim) -> RunReport {
                     return Some(layer_toml_equal(a, b));
                 }
             }
+            // the file a linked <name>.toml leads to is written like any layer TOML
+            if path == b"outside/canary/layer.toml" {
+                return Some(layer_toml_equal(a, b));
+            }
             None
         };
         let mut ignore_modes: Vec<Vec<u8>> = Vec::new();
